@@ -21,6 +21,10 @@ type JApi struct {
 func NewJapi(filepath string, oo ...core.Option) (JApi, *jerr.JApiError) {
 	f, err := readPanicFree(filepath)
 	if err != nil {
+		if f == nil {
+			// The file could not be read: locate the error in the (empty) file with the requested name.
+			f = fs.NewFile(filepath, "")
+		}
 		return JApi{}, jerr.NewJApiError(err.Error(), f, 0)
 	}
 	return NewJApiFromFile(f, oo...)
